@@ -3,30 +3,30 @@
     step; [violates] = the property checker [Pb_history] is false on the OBSERVED sequence. *)
 From Coq Require Import ZArith List Bool Arith.
 Import ListNotations.
-Require Import Nib.Lib.Dec Nib.C10.Model Nib.C12.Model Nib.C12.Spec.
+Require Import Nib.Lib.Dec Nib.C10.Model Nib.C10.Spec Nib.C12.Model Nib.C12.Spec.
 Local Open Scope Z_scope.
 
-Record case := mkCase { c_params : oparams; c_steps : list (op * sobs) }.
+Record case := mkCase { c_params : oparams; c_steps : list (op * sobs * list avote) }.
 
-Definition model_agrees (r : result) (o : sobs) : bool :=
+Definition model_agrees (r : hresult) (o : sobs) (vs : list avote) : bool :=
   match r with
-  | RPanic => so_panic o
-  | ROk s e => negb (so_panic o) && obs_eqb (obs_of s e) o
+  | HPanic => so_panic o
+  | HOk s e => negb (so_panic o) && obs_eqb (obs_of (h12_os s) e) o && leqb avote_eqb (h12_store s) vs
   end.
 
-Fixpoint run_cmp (q : oparams) (s : ostate) (l : list (op * sobs)) : bool :=
+Fixpoint run_cmp (q : oparams) (s : hst12) (l : list (op * sobs * list avote)) : bool :=
   match l with
   | [] => true
-  | (o, ob) :: r =>
-      let res := step true q s o in
-      model_agrees res ob &&
+  | (o, ob, vs) :: r =>
+      let res := hstep12 true q s o in
+      model_agrees res ob vs &&
       match res with
-      | RPanic => true
-      | ROk s' _ => run_cmp q s' r
+      | HPanic => true
+      | HOk s' _ => run_cmp q s' r
       end
   end.
 
 Definition empty_os : ostate := mkOS [] [] [].
 
-Definition mismatch (c : case) : bool := negb (run_cmp (c_params c) empty_os (c_steps c)).
-Definition violates (c : case) : bool := negb (Pb_history (c_params c) empty_sobs (c_steps c)).
+Definition mismatch (c : case) : bool := negb (run_cmp (c_params c) (mkHst12 empty_os []) (c_steps c)).
+Definition violates (c : case) : bool := negb (Pb_history12 (c_params c) empty_sobs [] (c_steps c)).
